@@ -18,7 +18,7 @@ def setup():
     S = world.mod("mokapot.streaming")
     T = world.mod("mokapot.tabular_data")
     world.rebind(S, np=symnp, pd=sympd, pa=vfs.pa_stub)
-    world.rebind(T, np=symnp, pd=sympd, pq=vfs.pq_stub, pa=vfs.pa_stub)
+    world.rebind(T, np=symnp, pd=sympd, pq=vfs.pq_stub, pa=vfs.pa_stub, open=vfs.open_text)
     return S, T
 
 
@@ -152,6 +152,10 @@ def sym_writer(ctx, cfg):
     n, kind = cfg["n"], cfg["kind"]
     vfs.reset()
     df, cells = _table(ctx, n)
+    cols = list(cfg.get("cols") or COLS)       # column names (e.g. one that the CSV rules would quote)
+    if cols != COLS:
+        df = df.rename(columns=dict(zip(COLS, cols)))
+        cells = {new: cells[old] for old, new in zip(COLS, cols)}
     splits = _splits(n) if n else [[]]
     si = int(ctx.fresh_int("append_split", 0, len(splits) - 1))
     parts = splits[si]
@@ -170,7 +174,7 @@ def sym_writer(ctx, cfg):
         vfs.put(path, sympd.DataFrame({"a": [99], "b": ["old"], "c": [True]}))
     inputs = dict(a=cells["a"], c=cells["c"], parts=parts, buffer_size=bs, stale=bool(stale))
     try:
-        w = T.TabularDataWriter.from_suffix(path, list(COLS), buffer_size=bs, buffer_type=btype, column_types=types)
+        w = T.TabularDataWriter.from_suffix(path, list(cols), buffer_size=bs, buffer_type=btype, column_types=types)
         w.initialize()
         pos = 0
         for k, ln in enumerate(parts):
@@ -195,9 +199,9 @@ def sym_writer(ctx, cfg):
         return PathOutcome([], inputs, None, "exc", note="%s:%s" % (type(ex).__name__, str(ex)[:80]))
     except Exception as ex:
         return PathOutcome([], inputs, None, "exc", note="%s:%s" % (type(ex).__name__, str(ex)[:80]))
-    props = [("columns", z3.BoolVal(list(back.columns) == COLS)), ("row_count", z3.BoolVal(len(back) == n))]
-    if list(back.columns) == COLS and len(back) == n:
-        for col in COLS:
+    props = [("columns", z3.BoolVal(list(back.columns) == cols)), ("row_count", z3.BoolVal(len(back) == n))]
+    if list(back.columns) == cols and len(back) == n:
+        for col in cols:
             for i in range(n):
                 props.append(("back[%s][%d]" % (col, i), _cell_eq(back._c[col][i], cells[col][i])))
     return PathOutcome(props, inputs, None)
@@ -242,6 +246,8 @@ def harnesses(tier):
             hs.append(Harness("writer[%s,N=%d,last frame with its columns in another order]" % (kind, n), dict(n=n, kind=kind, reorder=True), sym_writer, real="writer", functions=wf[kind] + [T.TabularDataWriter.check_valid_data],
                               bounds=dict(rows=n), stubs=stubs, assumptions=["a frame whose columns are the declared ones in another order may be refused (ValueError) or written correctly, never written under the wrong headers"], sample_rate=0.3,
                               validate_exc=False, expect_reach=False))  # on the current tree the text writer refuses every such frame
+    hs.append(Harness("writer[csv,N=1,a column name in double quotes]", dict(n=1, kind="csv", cols=["a", '"b"', "c"]), sym_writer, real="writer", functions=wf["csv"],
+                      stubs=stubs + ["plain open(path, 'w') -> VFS text file whose header line is parsed by the csv rules"], assumptions=["column names: a, \"b\" (with the quotes), c"]))
     hs.append(Harness("writer[csv,N=2,stale file present]", dict(n=2, kind="csv", stale=True), sym_writer, real="writer", functions=wf["csv"], stubs=stubs))
     hs.append(Harness("writer[buffered_dicts_csv,N=3,single dict appends]", dict(n=3, kind="buffered_dicts_csv", single_dict=True), sym_writer, real="writer", functions=wf["buffered_dicts_csv"], stubs=stubs))
     return hs
@@ -367,6 +373,8 @@ def real_writer(cfg, inp):
     import pyarrow as pa
     import mokapot.tabular_data as T
     df = _real_table(inp)
+    cols = list(cfg.get("cols") or COLS)
+    df = df.rename(columns=dict(zip(COLS, cols)))
     n, kind = len(df), cfg["kind"]
     with tempfile.TemporaryDirectory(prefix="verif_c13_") as d:
         ext = ".parquet" if "parquet" in kind else ".psms"
@@ -379,7 +387,7 @@ def real_writer(cfg, inp):
         if inp.get("stale"):
             path.write_text("a\tb\tc\n99\told\tTrue\n")
         try:
-            w = T.TabularDataWriter.from_suffix(path, list(COLS), buffer_size=bs, buffer_type=btype, column_types=types)
+            w = T.TabularDataWriter.from_suffix(path, list(cols), buffer_size=bs, buffer_type=btype, column_types=types)
             w.initialize()
             pos = 0
             for k, ln in enumerate(inp["parts"]):
@@ -401,9 +409,9 @@ def real_writer(cfg, inp):
         except Exception as ex:
             return dict(exception=repr(ex), violation="%s writer raised %r (appends %s, buffer %d)" % (kind, ex, inp["parts"], bs))
         if n == 0 and ext == ".psms":
-            v = None if list(back.columns) == COLS and len(back) == 0 else "empty table read back as %s rows / %s" % (len(back), list(back.columns))
+            v = None if list(back.columns) == cols and len(back) == 0 else "empty table read back as %s rows / %s" % (len(back), list(back.columns))
         else:
-            v = _same(back, df, COLS)
+            v = _same(back, df, cols)
     return dict(outputs=None, violation=("read back differs (appends %s, buffer %d): " % (inp["parts"], bs) + v) if v else None)
 
 
